@@ -1,7 +1,14 @@
 package proportion
 
 import (
+	metav1 "k8s.io/apimachinery/pkg/apis/meta/v1"
+	"k8s.io/apimachinery/pkg/types"
+
+	enginev2 "github.com/NVIDIA/KAI-scheduler/pkg/apis/scheduling/v2"
+	"github.com/NVIDIA/KAI-scheduler/pkg/scheduler/api"
 	"github.com/NVIDIA/KAI-scheduler/pkg/scheduler/api/common_info"
+	"github.com/NVIDIA/KAI-scheduler/pkg/scheduler/api/queue_info"
+	"github.com/NVIDIA/KAI-scheduler/pkg/scheduler/framework"
 	rs "github.com/NVIDIA/KAI-scheduler/pkg/scheduler/plugins/proportion/resource_share"
 	vr "github.com/NVIDIA/KAI-scheduler/pkg/zz_verifrt"
 )
@@ -48,4 +55,35 @@ func VerifC09_ChildrenGetTheirQuotaStep() {
 	vr.Assert(p.FairShare >= pQuota, "C09.parent-fair-share-at-least-min-of-deserved-and-request")
 	vr.Assert(c.FairShare >= cQuota, "C09.child-fair-share-at-least-min-of-deserved-and-request")
 	vr.Cover(p.FairShare == 0 && cQuota > 0, "C09.cover.parent-with-zero-fair-share-and-entitled-child")
+}
+
+// VerifC09_QueueSettingsReachTheirOwnResource: what the division divides by is what the Queue object
+// configures - per resource: the real queue_info.NewQueueInfo + proportionPlugin.createQueueResourceAttrs
+// give every resource ITS OWN quota, limit and over-quota weight (memory scaled from megabytes, -1 kept
+// as the unlimited sentinel).
+// BOUND: one queue; quota, limit (-1 or >= 0) and over-quota weight of cpu, memory and GPU independent symbolic integers < 2^10
+func VerifC09_QueueSettingsReachTheirOwnResource() {
+	in := func(name string) enginev2.QueueResource {
+		r := enginev2.QueueResource{Quota: vr.AnyFloatInt(name+".quota", 10), Limit: vr.AnyFloatInt(name+".limit", 10), OverQuotaWeight: vr.AnyFloatNat(name+".weight", 10)}
+		vr.Assume(r.Quota >= -1 && r.Limit >= -1)
+		return r
+	}
+	obj := &enginev2.Queue{ObjectMeta: metav1.ObjectMeta{Name: "q", UID: types.UID("q")},
+		Spec: enginev2.QueueSpec{Resources: &enginev2.QueueResources{CPU: in("cpu"), Memory: in("memory"), GPU: in("gpu")}}}
+	qi := queue_info.NewQueueInfo(obj)
+	ssn := &framework.Session{ClusterInfo: &api.ClusterInfo{Queues: map[common_info.QueueID]*queue_info.QueueInfo{qi.UID: qi}}}
+	ssn.ClusterInfo.QueueResourceUsage.Queues = map[common_info.QueueID]queue_info.QueueUsage{}
+	pp := &proportionPlugin{queues: map[common_info.QueueID]*rs.QueueAttributes{}}
+	pp.createQueueResourceAttrs(ssn)
+	a := pp.queues["q"]
+	want := obj.Spec.Resources
+	vr.Assert(a.CPU.Deserved == want.CPU.Quota && a.CPU.MaxAllowed == want.CPU.Limit && a.CPU.OverQuotaWeight == want.CPU.OverQuotaWeight, "C09.cpu-division-uses-the-queues-cpu-settings")
+	vr.Assert(a.GPU.Deserved == want.GPU.Quota && a.GPU.MaxAllowed == want.GPU.Limit && a.GPU.OverQuotaWeight == want.GPU.OverQuotaWeight, "C09.gpu-division-uses-the-queues-gpu-settings")
+	mem := func(v float64) float64 {
+		if v < 0 {
+			return -1
+		}
+		return v * 1000 * 1000
+	}
+	vr.Assert(a.Memory.Deserved == mem(want.Memory.Quota) && a.Memory.MaxAllowed == mem(want.Memory.Limit) && a.Memory.OverQuotaWeight == want.Memory.OverQuotaWeight, "C09.memory-division-uses-the-queues-memory-settings")
 }
